@@ -199,7 +199,7 @@ func ruleR21(c *Ctx) *RuleResult {
 						continue
 					}
 					n++
-					if !allowed[fn.Name()] {
+					if !allowed[fnName(fn)] {
 						bad = append(bad, fmt.Sprintf("%s writes a balance factor at %s", p.FuncKey(fn), p.InstrPos(st)))
 					}
 				}
